@@ -222,8 +222,8 @@ def handle_error_linecont(state, token):
     if state["pymode"][-1][0]:
         return
     prev = state["last"]
-    if prev.end != token.start:
-        return  # previous token is separated by whitespace
+    if prev is None or prev.end != token.start:
+        return  # first token, or previous token is separated by whitespace
     state["last"] = token
     yield _new_token("WS", "\\", token.start)
 
